@@ -96,8 +96,10 @@ REFACTORS = [
     ("__main__.py", [("    if args.to_mime is not None:\n        to_mime = args.to_mime\n", "    if args.to_mime is None:\n        pass\n    if args.to_mime is not None:\n        to_mime = args.to_mime\n")],
      "no-op branch added", ["C14", "C09"]),
     ("expressions.py", [("def get_member(obj, member: 'IdentifierToken'):", "def get_member(obj, ident: 'IdentifierToken'):"),
-                        ("    if not isinstance(member, IdentifierToken):\n        raise ParseError(f\"member name expected, instead found {member}\", member.offset)\n    if member.name.startswith('_'):\n        raise ParseError(f\"Cannot read protected and private member variables: {obj}.{member.name}\", member.offset)\n    return getattr(obj, member.name)",
-                         "    if not isinstance(ident, IdentifierToken):\n        raise ParseError(f\"member name expected, instead found {ident}\", ident.offset)\n    if ident.name.startswith('_'):\n        raise ParseError(f\"Cannot read protected and private member variables: {obj}.{ident.name}\", ident.offset)\n    return getattr(obj, ident.name)")],
+                        ("    if not isinstance(member, IdentifierToken):\n        raise ParseError(f\"member name expected, instead found {member}\", member.offset)\n    if member.name.startswith('_'):\n        raise ParseError(f\"Cannot read protected and private member variables: {obj}.{member.name}\", member.offset)\n",
+                         "    if not isinstance(ident, IdentifierToken):\n        raise ParseError(f\"member name expected, instead found {ident}\", ident.offset)\n    if ident.name.startswith('_'):\n        raise ParseError(f\"Cannot read protected and private member variables: {obj}.{ident.name}\", ident.offset)\n"),
+                        ("        raise ParseError(f\"Cannot read members of interpreter objects: .{member.name}\", member.offset)\n    return getattr(obj, member.name)",
+                         "        raise ParseError(f\"Cannot read members of interpreter objects: .{ident.name}\", ident.offset)\n    return getattr(obj, ident.name)")],
      "get_member parameter renamed", ["C19"]),
     ("json.py", [("        except json.decoder.JSONDecodeError as de:\n            return f'Error parsing {os.path.basename(path)}: {de.msg}: line {de.lineno}, column {de.colno} ' \\\n                   f'(char {de.pos})'",
                   "        except json.decoder.JSONDecodeError as err:\n            return f'Error parsing {os.path.basename(path)}: {err.msg}: line {err.lineno}, column {err.colno} ' \\\n                   f'(char {err.pos})'")],
